@@ -498,6 +498,17 @@ def run_task(contract, timeout_s=600, keep_smt=0, dry=False):
     except _Timeout:
         res["error"] = f"timeout after {timeout_s}s"
         res["timeout"] = True
+        # keep what the completed paths established: an obligation REFUTED there is a violation whether or not the
+        # remaining paths were explored (the task as a whole stays undecided)
+        for c, (kind, val) in stats.get("_partial", []):
+            res["paths"] += 1
+            for ob in c.obligations:
+                res["obligations"].append(ob)
+        cur = stats.get("_current")
+        if cur is not None and not any(cur is c for c, _ in stats.get("_partial", [])):
+            for ob in list(getattr(cur, "obligations", [])):
+                if ob.get("verdict"):
+                    res["obligations"].append(ob)
     except Exception as e:      # noqa: BLE001
         res["error"] = f"crash: {type(e).__name__}: {e}\n{traceback.format_exc()[-1500:]}"
     finally:
@@ -505,6 +516,8 @@ def run_task(contract, timeout_s=600, keep_smt=0, dry=False):
         signal.signal(signal.SIGALRM, old_handler)
         patch.undo()
         _ctx.set_cur(None)
+    stats.pop("_partial", None)
+    stats.pop("_current", None)
     res["stats"] = {k: (round(v, 3) if isinstance(v, float) else v) for k, v in stats.items()}
     res["wall_s"] = round(time.time() - t0, 3)
     return res
